@@ -329,6 +329,7 @@ class Runner(object):
         sim = self.sim
         o = sim.objs[i]
         self._scan_sent()
+        self._scan_execs(i, sim.generation[i])      # (a node killed inside a step is not seen by _after any more)
         log = sim.log_of(i)
         hi = max(self.ack_hi[i], o.raftCommitIndex)
         self.before[i] = {"log": log, "need": [x for x in log if x[0] <= hi], "term": o.raftCurrentTerm,
@@ -424,6 +425,17 @@ class Runner(object):
             ds[dest] = g
             self.cov["votes"] += 1
 
+    def _scan_execs(self, i, g):
+        """executions of node i not looked at yet belong to its generation g: positions strictly increase"""
+        ex = self.sim.execs.get(i, [])
+        for (pos, cmd) in ex[self.exec_from[i]:]:
+            lg, lp = self.exec_last.get(i, (g, 0))
+            if lg == g and pos <= lp:
+                self.flag("restart:position-executed-twice-in-generation",
+                          "node %s (generation %d) executed position %d after position %d" % (i, g, pos, lp))
+            self.exec_last[i] = (g, pos)
+        self.exec_from[i] = len(ex)
+
     def _after(self, e, ctx):
         sim = self.sim
         self._scan_sent()
@@ -460,14 +472,7 @@ class Runner(object):
             if pg == g and (c < pc or a < pa):
                 self.flag("commit:index-moved-backwards", "node %s commit %d->%d applied %d->%d within one generation" % (i, pc, c, pa, a))
             self.last[i] = (g, c, a)
-            ex = sim.execs.get(i, [])
-            for (pos, cmd) in ex[self.exec_from[i]:]:
-                lg, lp = self.exec_last.get(i, (g, 0))
-                if lg == g and pos <= lp:
-                    self.flag("restart:position-executed-twice-in-generation",
-                              "node %s (generation %d) executed position %d after position %d" % (i, g, pos, lp))
-                self.exec_last[i] = (g, pos)
-            self.exec_from[i] = len(ex)
+            self._scan_execs(i, g)
             lg = sim.P(i, "raftLog")
             key = (g, c, len(lg), lg[0][1], lg[-1][1], lg[-1][2])
             if self.ckey.get(i) != key:
@@ -1066,29 +1071,35 @@ def plan(ctx):
             for j in range(t_shards):
                 items.append(("directed", name, n, dump, t_stride, off, kinds, (j, t_shards)))
     if ctx.pid == "C07":
-        # elections are what C07 is about: every vote variant; the other families thinned
-        fam("vote", 3, False, 1, 1, VOTE)
-        fam("vote", 3, True, 1, 1, VOTE)
-        fam("vote", 5, True, 5, 1, VOTE, 6)
-        fam("vote", 4, False, 5, 1, VOTE, 3)
-        fam("replication", 3, True, 8, 1, ALL, 6)
-        fam("conflict", 3, True, 8, 1, ALL, 6)
-        fam("vote", 5, False, 0, 2, VOTE, 6)
-        fam("replication", 5, False, 0, 4, ALL, 6)
-        fam("snapshot", 3, False, 0, 3, ALL, 4)
+        # elections are what C07 is about: every vote variant; the other families thinned in the quick tier
+        fam("vote", 3, False, 1, 1, VOTE, 2)
+        fam("vote", 3, True, 1, 1, VOTE, 2)
+        fam("vote", 5, True, 5, 1, VOTE, 12)
+        fam("vote", 4, False, 5, 1, VOTE, 8)
+        fam("replication", 3, True, 8, 1, ALL, 12)
+        fam("conflict", 3, True, 8, 1, ALL, 12)
+        fam("vote", 5, False, 0, 1, VOTE, 12)
+        fam("vote", 4, True, 0, 1, VOTE, 8)
+        fam("vote", 2, True, 0, 1, VOTE, 1)
+        fam("replication", 5, False, 0, 1, ALL, 16)
+        fam("snapshot", 3, False, 0, 1, ALL, 12)
+        fam("conflict", 5, False, 0, 2, ALL, 16)
     else:
-        fam("replication", 3, True, 4, 1, ALL, 8)
-        fam("replication", 2, False, 3, 1, ALL, 2)
-        fam("snapshot", 3, True, 4, 1, ALL, 6)
-        fam("conflict", 3, False, 4, 1, ALL, 6)
-        fam("vote", 3, True, 3, 1, VOTE)
-        fam("replication", 5, True, 0, 4, ALL, 6)
-        fam("replication", 4, False, 0, 3, ALL, 6)
-        fam("snapshot", 3, False, 0, 2, ALL, 4)
-        fam("snapshot", 5, True, 0, 5, ALL, 4)
-        fam("conflict", 5, True, 0, 4, ALL, 6)
-        fam("vote", 5, False, 0, 4, VOTE, 2)
-    n_random = ctx.scale(48, 1000)
+        fam("replication", 3, True, 4, 1, ALL, 12)
+        fam("replication", 2, False, 3, 1, ALL, 4)
+        fam("snapshot", 3, True, 4, 1, ALL, 12)
+        fam("conflict", 3, False, 4, 1, ALL, 12)
+        fam("vote", 3, True, 3, 1, VOTE, 2)
+        fam("replication", 5, True, 0, 1, ALL, 16)
+        fam("replication", 4, False, 0, 1, ALL, 16)
+        fam("replication", 3, False, 0, 1, ALL, 12)
+        fam("snapshot", 3, False, 0, 1, ALL, 12)
+        fam("snapshot", 5, True, 0, 1, ALL, 16)
+        fam("snapshot", 4, False, 0, 2, ALL, 12)
+        fam("conflict", 5, True, 0, 1, ALL, 16)
+        fam("conflict", 3, True, 0, 1, ALL, 12)
+        fam("vote", 5, False, 0, 2, VOTE, 8)
+    n_random = ctx.scale(48, 8000)
     n_events = ctx.scale(260, 420)
     for k in range(n_random):
         items.append(("random", k, n_events))
